@@ -84,7 +84,10 @@ def _collect(item):
             continue
         have = set(vars(msg))
         refseq = []
+        refval = {}
         for o in occs:
+            if o.typ != "STR":
+                refval[o.name] = (o.key, o.idx, o.value)
             nm = o.key if o.typ == "STR" else o.name
             if nm in have:
                 names[nm] = (o.key, () if o.typ == "STR" else o.idx)
@@ -94,6 +97,16 @@ def _collect(item):
         # position stands for the reference field at that position, so its key and group index
         # are known -- the helpers are asked about the name the parser actually gave it
         real = [k for k in vars(msg) if not k.startswith("_")]
+        # an indexed occurrence whose own name is missing while its value sits under the name of
+        # ANOTHER occurrence of the same field: the parser generated that name for this occurrence
+        for nm, (key, idx, val) in refval.items():
+            if nm in have or not idx:
+                continue
+            for rn in real:
+                other = refval.get(rn)
+                if other and other[0] == key and other[2] != val and getattr(msg, rn) == val:
+                    names[rn + "\x00reused"] = (key, idx)
+                    break
         if len(real) == len(refseq):
             for rn, (nm, key, idx) in zip(real, refseq):
                 if rn != nm and rn not in names:
@@ -105,7 +118,7 @@ def _collect(item):
                     cand = [r for r in refseq if r[1] == base or r[1].startswith(base + "_")]
                     if cand:
                         names[rn] = (cand[0][1], None)  # index unknown: description / key only
-    st.extra["names"] = {(n, k, i) for n, (k, i) in names.items()}
+    st.extra["names"] = {(n.partition("\x00")[0], k, i) for n, (k, i) in names.items()}
     return st
 
 
